@@ -33,11 +33,11 @@ import c15_defs  # noqa: E402
 
 PROP = "C15"
 DRIVER = "drv-c15"
-PROOF_MODULES = ["TetlProofs.C15.Props", "TetlProofs.C15.PropsGen"]
+PROOF_MODULES = ["TetlProofs.C15.Props", "TetlProofs.C15.PropsGen", "TetlProofs.C15.PropsInvoke"]
 HARNESS = "harness/c15.cpp"
 SOURCES = ["include/etl/_type_traits", "include/etl/_concepts", "include/etl/_limits/numeric_limits.hpp",
            "include/etl/_ratio", "include/etl/_meta", "include/etl/_numeric/gcd.hpp", "include/etl/_math/abs.hpp",
-           "include/etl/_math/sign.hpp"]
+           "include/etl/_math/sign.hpp", "include/etl/_functional/invoke.hpp", "include/etl/_functional/reference_wrapper.hpp"]
 CXXSTD = ["-std=c++2b", "-O0", "-w"]
 
 RULE = ("(c) every type of the Lean-enumerated zoo of depth 0 (31 base types x 4 cv; eight enumerations with underlying types of 1, 2, 4 and 8 bytes) and a seeded sample (thorough: all) of "
@@ -187,6 +187,10 @@ THEOREMS = {
            "Tetl.C15.Props.composite_formulas", "Tetl.C15.Props.forwarding_vars", "Tetl.C15.Props.helper_traits_strip_cv",
            "Tetl.C15.Props.var_and_struct_forms_agree"],
     "bt": ["Tetl.C15.Props.isSame_iff", "Tetl.C15.Props.sameAs_eq"],
+    "inv": ["Tetl.C15.Props.invoke_eq", "Tetl.C15.Props.invoke_object_expression_eq", "Tetl.C15.Props.forward_preserves_category",
+            "Tetl.C15.Props.invokeResult_eq", "Tetl.C15.Props.isInvocable_eq", "Tetl.C15.Props.isInvocableR_eq",
+            "Tetl.C15.Props.invocable_eq", "Tetl.C15.Props.predicate_eq", "Tetl.C15.Props.invoke_ref_qualifier_rule",
+            "Tetl.C15.Props.invoke_named_parameter_differs"],
 }
 
 # ------------------------------------------------------------------ the class zoo (names of harness/c15.cpp)
@@ -205,6 +209,17 @@ RELATION_TYPES = ["int", "double", "bool", "P<void>", "P<int>", "P<C1<int>>", "L
                   "ExplicitConv", "FromCls", "Callable", "CallableRef", "Assignable", "L<Assignable>", "ES", "EU",
                   "A<int,3>", "F0000<int>", "P<F1000<int>>", "P<F1001<int>>", "M<int>", "M<F1000<int>>", "void", "nullptr_t",
                   "MoveOnly", "L<MoveOnly>", "Abstract", "L<Abstract>", "Swappable", "L<Swappable>", "long", "uchar"]
+# the INVOKE zoo (names of `namespace inv` in harness/c15.cpp = keys of Inv.callableOf / Inv.abaseOf in Tetl/C15/Invoke.lean)
+INV_PMF = ["pm_f0", "pm_fl", "pm_fr", "pm_fc", "pm_fcl", "pm_fcr", "pm_fn", "pm_fcn", "pm_fa", "pm_fv", "pm_fvl", "pm_frn"]
+INV_PMD = ["pd_x", "pd_cx"]
+INV_FOBJ = ["FoP", "FoC", "FoL", "FoR", "FoCL", "FoCR", "FoOv", "FoOv2", "FoN", "FoV", "FoCVL"]
+INV_FN = ["fn_t", "fn_p", "fn_r", "fn_pn"]
+INV_NC = ["nc_int", "nc_U"]
+INV_ARGS = ["S", "D", "rwS", "rwCS", "rwD", "pS", "pCS", "pD", "smC", "smK", "smN", "smL", "smR", "U", "int"]
+INV_ARG_CPP = {"S": "inv::S", "D": "inv::D", "U": "inv::U", "int": "int", "pS": "inv::S*", "pCS": "inv::S const*", "pD": "inv::D*",
+               "rwS": "%s::reference_wrapper<inv::S>", "rwCS": "%s::reference_wrapper<inv::S const>",
+               "rwD": "%s::reference_wrapper<inv::D>", "smC": "inv::smC", "smK": "inv::smK", "smN": "inv::smN", "smL": "inv::smL",
+               "smR": "inv::smR"}
 SAME_TYPES = ["bint;", "K1bint;", "K2bint;", "K3bint;", "buint;", "blong;", "bllong;", "bchar;", "bschar;", "Pbint;", "K1Pbint;",
               "PK1bint;", "Lbint;", "Rbint;", "LK1bint;", "A3;bint;", "A1;bint;", "Ubint;", "A3;K1bint;", "F0000bint;",
               "F0001bint;", "F0100bint;", "F0010bint;", "F1000bint;", "PF0000bint;", "PF0001bint;", "Mbint;", "MF0000bint;",
@@ -295,6 +310,30 @@ def generate(tier, seed):
     for a in rel:
         for b in rel:
             add("db a=%s b=%s" % (a, b), "db")
+    # INVOKE ([func.require]): every pointer to member x every first argument x its six cv/ref forms (the member pointer
+    # itself in the form `F`; a seeded third also as `F&`, `F const&`, ...), wrong arities, no object argument; every
+    # function object / function x its six forms x 0, 1, 2 int arguments; function objects with an object argument
+    rnd_main, rnd = rnd, random.Random(seed * 7919 + 15)          # own stream: the later parts keep theirs
+    def inv(f, fq, a, aq, n, tag):
+        add("inv f=%s fq=%d a=%s aq=%d n=%d" % (f, fq, a, aq, n), tag)
+    for f in INV_PMF + INV_PMD:
+        arity = 1 if f == "pm_fa" else 0
+        for a in INV_ARGS:
+            for aq in range(6):
+                inv(f, 0, a, aq, arity, "inv/member")
+                if thorough or rnd.random() < 0.2:
+                    inv(f, rnd.randrange(1, 6), a, aq, arity, "inv/member-fq")
+                if thorough or rnd.random() < 0.1:
+                    inv(f, 0, a, aq, 1 - arity, "inv/member-arity")
+        for fq in range(6):
+            inv(f, fq, "none", 0, 0, "inv/member-noobj")
+    for f in INV_FOBJ + INV_FN + INV_NC:
+        for fq in range(6):
+            for n in (0, 1, 2):
+                inv(f, fq, "none", 0, n, "inv/call")
+            for a in (INV_ARGS if thorough else rnd.sample(INV_ARGS, 2)):
+                inv(f, fq, a, rnd.randrange(6), rnd.randrange(2), "inv/call-obj")
+    rnd = rnd_main
     # (b) numeric_limits
     for t in ARITH:
         for q in range(4):
@@ -395,6 +434,8 @@ def nontrivial(case, rows=None):
         return kv["a"] != kv["b"]
     if op == "lim":
         return True
+    if op == "inv":
+        return kv["f"].startswith("p") or kv["fq"] != "0"
     if op == "rn":
         n, d = int(kv["n"]), int(kv["d"])
         import math
@@ -589,6 +630,16 @@ def make_items(ctx, cases):
             else:
                 mo, so = ops_mask(parse_items(it.model)), ops_mask(parse_items(it.spec))
                 it.call = "rarow<%sL, %sL, %sL, %sL, %d, %d>(%d);" % (kv["n1"], kv["d1"], kv["n2"], kv["d2"], mo, so, idx)
+        elif op == "inv":
+            args_e, args_s = [], []
+            if kv["a"] != "none":
+                cpp = INV_ARG_CPP[kv["a"]]
+                for ns, lst in (("etl", args_e), ("std", args_s)):
+                    lst.append("inv::Q%s<%s>" % (kv["aq"], cpp % ns if "%s" in cpp else cpp))
+            for lst in (args_e, args_s):
+                lst.extend(["int"] * int(kv["n"]))
+            it.call = "irow<inv::Q%s<inv::%s>, inv::TL<%s>, inv::TL<%s>>(%d);" % (kv["fq"], kv["f"], ", ".join(args_e),
+                                                                                   ", ".join(args_s), idx)
         elif op == "misc":
             it.call = "mrow<0>(%d);" % idx
         else:
@@ -808,7 +859,7 @@ def run(ctx, replay=None):
     clang_info = {"compiler": clang, "rows": 0}
     if clang:
         pool = [i for i in live if i not in {b[0] for b in broken_rows}
-                and items[i].case.lines[0].split(" ")[0] in ("ut", "bt", "d", "db", "lim", "misc")]
+                and items[i].case.lines[0].split(" ")[0] in ("ut", "bt", "d", "db", "lim", "misc", "inv")]
         pick_c = pool if replay else random.Random(ctx.seed + 7).sample(pool, min(len(pool), 240 if ctx.tier == "quick" else 1200))
         try:
             n_c = max(1, min(lib.NPROC, len(pick_c) // 60 + 1))
